@@ -192,7 +192,7 @@ PROPS['C05'] = dict(
     bounded_quick=[('checker', 'stands in for TxInner::check when unit check is undecided (rewritten body): structurally damaged files must be rejected by DB::check()'), ('history', 'Node::spill and InnerBucket::merge_nodes / node (an Rc<RefCell<Node>> graph mutated through shared handles: outside both verifiers), the payload bytes Page::write_node copies (bounded Kani codec); Node::split / write / free_page / NodeData::merge, Page::write_node (layout arithmetic, never fails) and InnerBucket::{rebalance, spill, page_node} ARE under contract (units split, nodeio, writenode, bucketcommit, overlay)')],
     level='proof',
     composition='the accounting part of INV (pending pages below the high-water mark, not free, pending once; live pages not free) is preserved by begin/end reader and commit: Verus lemma L2 (contracts/lemmas.vtmpl) under assumptions A1/A2',
-    units=['freelist', 'commit', 'open', 'pagenode', 'lemmas', 'bucketops', 'nodeio', 'split', 'bucketcommit', 'check', 'writenode', 'markdel', 'txn'],
+    units=['freelist', 'commit', 'open', 'pagenode', 'lemmas', 'bucketops', 'nodeio', 'split', 'bucketcommit', 'check', 'writenode', 'markdel', 'txn', 'overlay'],
     kani_quick=['layout'],
     kani_thorough=['codec'],
     explanation='Page accounting, allocator and serialisation side (the tree-shape half is outside): the allocator never hands out a page that is pending, already allocated in this transaction or a header page, '
